@@ -26,7 +26,8 @@
  *     st,q,n          chunkqueue_steal(q <- other, n)
  *     sw,q,n          chunkqueue_steal_with_tempfiles(q <- other, n)
  *     cr,q,s,off,len  chunkqueue_append_cq_range(dst q, src s, off, len)
- *     mw,q,n          chunkqueue_mark_written
+ *                     (skip if s == q and the range exceeds the queue)
+ *     mw,q,n          chunkqueue_mark_written  (skip if n > length)
  *     rf,q  re,q      chunkqueue_remove_finished_chunks / _remove_empty_chunks
  *     cm,q,clen       chunkqueue_compact_mem   (skip unless non-empty, all MEM)
  *     co,q            chunkqueue_compact_mem_offset (skip if empty)
@@ -92,8 +93,7 @@ static ssize_t ltv_pwritev(int fd, const struct iovec *iov, int cnt, off_t off) 
             ++m;
         }
         ++ltv_faults_fired;
-        if (0 == m) return 0;
-        return pwritev(fd, v, m, off);
+        return pwritev(fd, v, m, off);   /* (m == 0: the kernel still checks fd) */
     }
     return pwritev(fd, iov, cnt, off);
 }
@@ -104,7 +104,6 @@ static ssize_t ltv_pwrite(int fd, const void *buf, size_t len, off_t off) {
     if (k == 's') {
         ++ltv_faults_fired;
         if ((size_t)n < len) len = (size_t)n;
-        if (0 == len) return 0;
     }
     return pwrite(fd, buf, len, off);
 }
@@ -137,6 +136,7 @@ static char dirs[3][600];
 static char srcdir[600];
 #define LTV_NSRC 4
 static long src_size[LTV_NSRC] = { -1, -1, -1, -1 };
+static int nsrc;          /* source files of the current case */
 static log_error_st *errh;
 static int fd_lo;       /* first descriptor number the queue code can obtain */
 static int fd_base;     /* descriptors already open when the current case started */
@@ -345,6 +345,7 @@ static void do_op(chunkqueue **cq, char *tok) {
         chunkqueue_use_memory(q, ckpt, use);
         printf("gm:%zu", n);
     }
+    else if ((IS("af") || IS("ad")) && nf == 5 && (a[0] < 0 || a[0] >= nsrc)) fputs("bad-op", stdout);
     else if ((IS("af") || IS("ad")) && nf == 5) {
         char p[700]; src_path(p, sizeof(p), (int)a[0]);
         buffer *fn = buffer_init();
@@ -370,10 +371,20 @@ static void do_op(chunkqueue **cq, char *tok) {
         printf("sw:%d", rc);
     }
     else if (IS("cr") && nf == 5) {
-        chunkqueue_append_cq_range(q, cq[a[0] & 1], (off_t)a[1], (off_t)a[2]);
-        fputs(op, stdout);
+        chunkqueue *s = cq[a[0] & 1];
+        /* dst == src is permitted by chunk.c, but then the range must lie
+         * inside the queue (else the copy loop would feed on its own output) */
+        if (s == q && a[2] > 0 && a[1] + a[2] > chunkqueue_length(q)) fputs("cr:skip", stdout);
+        else {
+            chunkqueue_append_cq_range(q, s, (off_t)a[1], (off_t)a[2]);
+            fputs(op, stdout);
+        }
     }
-    else if (IS("mw") && nf == 3) { chunkqueue_mark_written(q, (off_t)a[0]); fputs(op, stdout); }
+    else if (IS("mw") && nf == 3) {
+        /* caller obligation: never mark more than is queued */
+        if (a[0] >= 0 && a[0] <= chunkqueue_length(q)) { chunkqueue_mark_written(q, (off_t)a[0]); fputs(op, stdout); }
+        else fputs("mw:skip", stdout);
+    }
     else if (IS("rf") && nf == 2) { chunkqueue_remove_finished_chunks(q); fputs(op, stdout); }
     else if (IS("re") && nf == 2) { chunkqueue_remove_empty_chunks(q); fputs(op, stdout); }
     else if (IS("cm") && nf == 3) {
@@ -437,6 +448,7 @@ int main(void) {
             char *f[LTV_NSRC + 1];
             int nf = (ltv_tok[6][0] == '-') ? 0 : split(ltv_tok[6], f, LTV_NSRC);
             for (int i = 0; i < nf; ++i) src_setup(i, atol(f[i]));
+            nsrc = nf;
         }
         /* fresh world */
         chunkqueue_chunk_pool_clear();
